@@ -31,9 +31,11 @@ slices per tier and column count, build_blocks / expand enumerate them):
      all 3 indentations x every alignment vector over {left,right,center}^n x ANSI/plain x 1..3 widths.
   P2 and P1 with n<=2 render every table twice.
   P4 "two renderings at once" (E3, mc/sched.py): two threads render two different tables; every interleaving at the granularity of
-     source lines of cell_wrapper.py with at most one preemption; each rendering must equal the rendering of that table alone.
+     source lines of cell_wrapper.py and table.py with at most one preemption; each rendering must equal the rendering of that table
+     alone.  Two pairs use two Table objects, the second pair of one kind and the third pair render ONE Table object on two widths.
   P3 "edited tables": the table is not new - a table with other content was rendered once and then edited into the table
-     under test by set_row(first) / set_row(last) / add_row / set_rows / set_header_row; all clauses are judged on the rendering
+     under test by set_row(first) / set_row(last) / add_row / set_rows / set_header_row, or its TableStyle object has served a table
+     with more / fewer columns before; all clauses are judged on the rendering
      of the edited table (a table reached by a history is a table), which is also rendered twice.
 
 Oracle clauses (signature in brackets):
@@ -214,7 +216,15 @@ def render(case):
     hdr, rows, vis = table_texts(kinds, nrows, dev, header)
     io = BufferedIO(formatter=AnsiFormatter(forced=True) if ansi else PlainFormatter())
     io.set_terminal_dimensions(Rectangle(width, 24))
-    table = Table(make_style(style, aligns))
+    the_style = make_style(style, aligns)
+    if isinstance(twice, (list, tuple)) and twice[0] == "style-shared":
+        # P3: the TableStyle object has already served another table with another number of columns
+        other = Table(the_style)
+        other.add_rows([["x%d" % j for j in range(twice[1])], ["y%d" % j for j in range(twice[1])]])
+        scratch = BufferedIO(formatter=PlainFormatter())
+        scratch.set_terminal_dimensions(Rectangle(120, 24))
+        other.render(scratch, 0)
+    table = Table(the_style)
     if isinstance(twice, (list, tuple)):
         # P3: the table is reached by an edit of a table that has already been rendered once
         edit = twice[0]
@@ -472,6 +482,8 @@ def run_case(case):
 PAIRS_P4 = [
     (((K_TWO, K_S40), 2, 1, True, "ascii", 0, (0, 0), 30, False, False), ((K_S40, K_WORD), 2, 1, False, "ascii", 0, (0, 0), 24, False, False)),
     (((K_S40,), 1, None, False, "compact", 0, (0,), 12, False, False), ((K_S40,), 1, None, False, "compact", 0, (0,), 25, False, False)),
+    # one Table object rendered on a wide and on a narrow terminal at the same time
+    (((K_WORD, K_S40), 2, 1, True, "ascii", 0, (0, 0), 60, False, False), ((K_WORD, K_S40), 2, 1, True, "ascii", 0, (0, 0), 26, False, False)),
 ]
 
 
@@ -479,13 +491,45 @@ def _render_text(case):
     return render(case)[0]
 
 
+def _table_of(case):
+    from clikit.ui.components import Table
+    kinds, nrows, dev, header, style, ind, aligns = case[:7]
+    hdr, rows, _ = table_texts(kinds, nrows, dev, header)
+    t = Table(make_style(style, aligns))
+    if hdr is not None:
+        t.set_header_row(hdr)
+    t.add_rows(rows)
+    return t
+
+
+def _render_on(table, case):
+    from clikit.formatter import PlainFormatter
+    from clikit.io import BufferedIO
+    from clikit.ui.rectangle import Rectangle
+    io = BufferedIO(formatter=PlainFormatter())
+    io.set_terminal_dimensions(Rectangle(case[7], 24))
+    table.render(io, case[5])
+    return io.fetch_output()
+
+
+def _p4_thunks(pi_):
+    """-> (thunks for the two threads, expected texts).  A pair whose two cases describe the same table (all but the width)
+    is rendered from ONE Table object on two I/Os: a rendering keeps nothing on the table another rendering could overwrite."""
+    pair = PAIRS_P4[pi_]
+    if pair[0][:7] == pair[1][:7]:
+        shared = _table_of(pair[0])
+        return [lambda c=c: _render_on(shared, c) for c in pair], [_render_on(_table_of(c), c) for c in pair]
+    return [lambda c=c: _render_text(c) for c in pair], [_render_text(c) for c in pair]
+
+
+P4_FILES = ("cell_wrapper.py", "components/table.py")
+
+
 def check_p4(pi_, bound, first_alts=None):
     from mc import sched
-    pair = PAIRS_P4[pi_]
-    want = [_render_text(c) for c in pair]
-
     def run_one(choices):
-        s, got, exc, alive = sched.run_pair(choices, [lambda c=c: _render_text(c) for c in pair], "cell_wrapper.py", horizon=20000)
+        thunks, want = _p4_thunks(pi_)
+        s, got, exc, alive = sched.run_pair(choices, thunks, P4_FILES, horizon=20000)
         case = {"p4": pi_}
         vs = []
         if s.deadlock or s.livelock or exc is not None or alive:
@@ -534,9 +578,8 @@ def part_p4(bound):
 def replay(case):
     if isinstance(case, dict) and "p4" in case:
         from mc import sched
-        pair = PAIRS_P4[case["p4"]]
-        want = [_render_text(c) for c in pair]
-        s, got, exc, alive = sched.run_pair(case.get("choices") or [], [lambda c=c: _render_text(c) for c in pair], "cell_wrapper.py", horizon=20000)
+        thunks, want = _p4_thunks(case["p4"])
+        s, got, exc, alive = sched.run_pair(case.get("choices") or [], thunks, P4_FILES, horizon=20000)
         for i, t in enumerate(s.threads[1:3]):
             if t.exc is not None:
                 return report.viol("concurrent:crash:" + report.exc_site(t.exc), "Table.render raised %r" % (t.exc,), case, want[i], repr(t.exc))
@@ -624,6 +667,7 @@ def expand(block, seed):
         rot = (sum(kinds) + nrows) % 3
         aligns = tuple((rot + c) % 3 for c in range(n))
         edits = [("set_row", 0), ("set_row", nrows - 1), ("add_row",), ("set_rows",)] + ([("set_header_row",)] if header else [])
+        edits += [("style-shared", n + 2)] + ([("style-shared", n - 1)] if n > 1 else [])
         for style, ind in P1_STYLE_IND:
             lo = min_width(style, ind, n)
             for w in [lo + 3 * n, 80][:wmode]:
@@ -680,7 +724,7 @@ def main():
             rep.violation(v)
     rep.add("evaluations", nsched)
     rep.set("schedules", nsched)
-    rep.part("P4-concurrent-renderings", pairs=len(PAIRS_P4), preemption_bound=1, granularity="source lines of cell_wrapper.py",
+    rep.part("P4-concurrent-renderings", pairs=len(PAIRS_P4), preemption_bound=1, granularity="source lines of cell_wrapper.py and table.py",
              schedules={str(k): p4[k][0]["execs"] for k in p4}, max_points={str(k): p4[k][0]["max_points"] for k in p4})
     rep.set("blocks", len(blocks))
     rep.set("per_part", per)
